@@ -290,6 +290,27 @@ def participationM (s : State) : SM State := do
     let r := processParticipationFlagUpdates s.current_epoch_participation
     pure { s with previous_epoch_participation := r.1, current_epoch_participation := r.2 }
 
+/-- `altair.ProcessSyncCommitteeUpdates`. The candidates are `epc.NextEpoch.ActiveIndices`, which the epochs context
+computed from the registry as it was at the START of the epoch transition (`flats`); effective balances and
+pubkeys are read from the state as it is now. -/
+def syncCommitteeM (cfg : Config) (agg : AggOracle) (flats : List Validator) (s : State) : SM State := do
+  let nextEpoch := get_current_epoch cfg s + 1
+  if cfg.EPOCHS_PER_SYNC_COMMITTEE_PERIOD = 0 then invalid "division by zero"
+  let computed ← if nextEpoch % cfg.EPOCHS_PER_SYNC_COMMITTEE_PERIOD = 0 then do
+      let active := active_indices_of flats nextEpoch
+      if active.isEmpty then invalid "no active validators to compute sync committee from"
+      let seed ← get_seed cfg s nextEpoch DOMAIN_SYNC_COMMITTEE
+      match computeSyncCommitteeIndices cfg s.validators active seed (shuffledOf cfg active.length seed) SYNC_FUEL with
+      | none => throw (.fuel "ComputeSyncCommitteeIndices")
+      | some indices =>
+        let pubkeys ← indices.mapM fun index => do pure (← idx s.validators index "validators").pubkey
+        match agg pubkeys with
+        | some aggregate => pure (some (⟨pubkeys, aggregate⟩ : SyncCommittee))
+        | none => throw (.oracle "aggregate pubkey not supplied for this pubkey list")
+    else pure none
+  let r := processSyncCommitteeUpdates cfg nextEpoch s.current_sync_committee s.next_sync_committee computed
+  pure { s with current_sync_committee := r.1, next_sync_committee := r.2 }
+
 /-- The fork's `ProcessEpoch` pipeline with the snapshot `flats` taken once at the start. -/
 def processEpochM (cfg : Config) (agg : AggOracle) (s : State) : SM State := do
   let flats := s.validators
@@ -304,6 +325,6 @@ def processEpochM (cfg : Config) (agg : AggOracle) (s : State) : SM State := do
   let s ← randaoResetM cfg s
   let s ← historicalM cfg s
   let s ← participationM s
-  if s.fork = .phase0 then pure s else process_sync_committee_updates cfg agg s
+  if s.fork = .phase0 then pure s else syncCommitteeM cfg agg flats s
 
 end Zrnt.Beacon.Impl
